@@ -162,13 +162,27 @@ fn cut(buf: &[u8]) {
     # ---- A: all shapes with <= 3 nodes, preferred widths, leaves = all three kinds; cuts: some
     per = int(sys.argv[1]) if len(sys.argv) > 1 else 12
     CUTS3 = sys.argv[2] if len(sys.argv) > 2 else "some"
+    # quick: every shape <= 3 nodes over the scalar leaf, plus every leaf kind alone and as the only child of each container
+    cases = []
+    seen = set()
+    for n in (1, 2, 3):
+        for t in trees(n, ["S"]):
+            txt, end = case_text(t, [0], CUTS3); cases.append(txt); seen.add(show(t))
+    for n in (1, 2):
+        for t in trees(n, LEAVES):
+            if show(t) not in seen:
+                txt, end = case_text(t, [0], CUTS3); cases.append(txt); seen.add(show(t))
+    for i in range(0, len(cases), per):
+        harness("c06_q3_%02d" % (i // per), cases[i:i + per], "quick", "all trees <= 3 nodes over the scalar leaf; all trees <= 2 nodes over {scalar, text, chunked bytes}; preferred head widths", 14)
+    n_q = len(cases)
+    # thorough: all shapes <= 3 nodes over all three leaf kinds
     cases = []
     for n in (1, 2, 3):
         for t in trees(n, LEAVES):
             txt, end = case_text(t, [0], CUTS3)
             cases.append(txt)
     for i in range(0, len(cases), per):
-        harness("c06_shapes3_%02d" % (i // per), cases[i:i + per], "quick", "all trees <= 3 nodes, preferred head widths, no prefixes", 14)
+        harness("c06_shapes3_%02d" % (i // per), cases[i:i + per], "thorough", "all trees <= 3 nodes, preferred head widths, no prefixes", 14)
     n_a = len(cases)
     # ---- B: head-width sweep on 2-node shapes (every container / tag head at every width)
     cases = []
@@ -183,7 +197,7 @@ fn cut(buf: &[u8]) {
                 txt, end = case_text(t, [w], "none")
                 cases.append(txt)
     for i in range(0, len(cases), per):
-        harness("c06_widths_%02d" % (i // per), cases[i:i + per], "quick", "2-node shapes and flat 3-node containers x every head width", 14)
+        harness("c06_widths_%02d" % (i // per), cases[i:i + per], "thorough", "2-node shapes and flat 3-node containers x every head width", 14)
     n_b = len(cases)
     # ---- C (thorough): all shapes with 4 nodes over scalar leaves + text; cuts: all for 3-node, some for 4-node
     cases = []
@@ -229,6 +243,6 @@ fn cut(buf: &[u8]) {
     # Hostile declared counts (2^63, 2^64-1 ..) followed by a truncated element were tried as well (end of input inside a
     # head): every such harness exceeded 400 s.  Error paths of the real `skip` are out of CBMC's reach here.
     open("/verif/units/kani/minicbor/skip_shapes.rs", "w").write("\n".join(out))
-    print("shapes<=3:", n_a, "width cases:", n_b, "4-node:", n_c)
+    print("quick:", n_q, "shapes<=3:", n_a, "width cases:", n_b, "4-node:", n_c)
 
 main()
